@@ -61,9 +61,11 @@ PushBoth(i, p, q) ==
   /\ UNCHANGED crashed
   /\ Log([op |-> "pushboth", id |-> i, part |-> p, part2 |-> q, exp |-> [j \in Ids |-> {Proj(idx'[j])}]])
 
+(* a record that is gone stays gone: an update written back by a caller that read the record before it was deleted or swept
+   (the routing code's read-modify-write racing with a delete or the cleaner) is refused *)
 Update(i, pend, ex) ==
-  /\ Up /\ idx[i].present
-  /\ idx' = [idx EXCEPT ![i].pending = pend, ![i].expires = ex]
+  /\ Up
+  /\ idx' = IF idx[i].present THEN [idx EXCEPT ![i].pending = pend, ![i].expires = ex] ELSE idx
   /\ UNCHANGED crashed
   /\ Log([op |-> "update", id |-> i, pending |-> pend, expires |-> ex, exp |-> [j \in Ids |-> {Proj(idx'[j])}]])
 
